@@ -683,16 +683,29 @@ class SimLoop(selector_events.BaseSelectorEventLoop):
                                 str(exc) if exc else None))
 
     def run_in_executor(self, executor, func, *args):
+        """Simulated worker thread: the job runs inline, atomically, either at once or - when
+        the world sets ``executor_delay`` (a stalled storage/DNS/... call inside the thread) -
+        that much virtual time later.  Like a real thread that has started, a delayed job
+        cannot be cancelled: it runs to completion even if nobody waits for it any more."""
         fut = self.create_future()
+        delay = float(getattr(self, "executor_delay", 0.0) or 0.0)
 
         def run():
-            if fut.cancelled():
+            if fut.cancelled() and not delay:
                 return
             try:
-                fut.set_result(func(*args))
+                r = func(*args)
             except BaseException as e:  # noqa
-                fut.set_exception(e)
-        self.call_soon(run)
+                if not fut.done():
+                    fut.set_exception(e)
+                return
+            if not fut.done():
+                fut.set_result(r)
+        if delay:
+            self.net.stats["executor_job_stalled"] += 1
+            self.net.after(delay, run)
+        else:
+            self.call_soon(run)
         return fut
 
     async def getaddrinfo(self, host, port, *, family=0, type=0, proto=0, flags=0):
